@@ -152,18 +152,27 @@ class AnalysisPool:
         """
         count_ = 0
         results = []
+        exception = None
 
+        # Every analysis puts exactly one result (or exception) on its queue for each
+        # instance. All of them are collected before an exception is raised so that
+        # nothing is left queued to be mistaken for a result of the next call.
         while count_ < self.n_analyses:
             for process in self.processes:
                 if process.queue.empty():
                     continue
                 result = process.queue.get()
-                results.append(result)
+                count_ += 1
 
                 if isinstance(result, Exception):
-                    raise result
+                    if exception is None:
+                        exception = result
+                    continue
 
-                count_ += 1
+                results.append(result)
+
+        if exception is not None:
+            raise exception
 
         return results
 
